@@ -138,6 +138,8 @@ type Engine struct {
 	Configs    int
 	Undecided  []string
 	ids        map[ssa.Value]int
+	tables     map[ssa.Value][]*ssa.Function
+	intTrack   map[*ssa.Function]map[ssa.Value]bool
 	finfo      map[*ssa.Function]*funcInfo
 	incomplete bool
 	grew       bool
@@ -182,6 +184,7 @@ type config struct {
 	idx    int
 	s      State
 	facts  []fact // sorted by id
+	ints   []intFact // concrete values of table-loop indices (tables.go), sorted by id
 	defers []*ssa.Defer
 	parent *config
 	note   string
@@ -201,7 +204,7 @@ func (x *Ctx) Eval(v ssa.Value) Abs { return x.E.eval(x.c, v) }
 
 // New creates an engine.
 func New(r *Rule, fset *token.FileSet, pos func(token.Pos) string) *Engine {
-	return &Engine{R: r, Fset: fset, PosStr: pos, matchCache: map[ssa.Instruction][]Ev{}, sums: map[sumKey]*summary{}, vioSeen: map[string]*Violation{}, ids: map[ssa.Value]int{}, finfo: map[*ssa.Function]*funcInfo{}}
+	return &Engine{R: r, Fset: fset, PosStr: pos, matchCache: map[ssa.Instruction][]Ev{}, sums: map[sumKey]*summary{}, vioSeen: map[string]*Violation{}, ids: map[ssa.Value]int{}, finfo: map[*ssa.Function]*funcInfo{}, tables: map[ssa.Value][]*ssa.Function{}, intTrack: map[*ssa.Function]map[ssa.Value]bool{}}
 }
 
 func (e *Engine) id(v ssa.Value) int {
@@ -277,6 +280,9 @@ func (c *config) key() string {
 	for _, f := range c.facts {
 		fmt.Fprintf(&b, "%d=%d,", f.id, f.a)
 	}
+	for _, f := range c.ints {
+		fmt.Fprintf(&b, "%d#%d,", f.id, f.val)
+	}
 	if len(c.defers) > 0 {
 		b.WriteByte('|')
 		for _, d := range c.defers {
@@ -298,6 +304,7 @@ func (c *config) get(id int) Abs {
 func (c *config) clone() *config {
 	n := *c
 	n.facts = append([]fact(nil), c.facts...)
+	n.ints = append([]intFact(nil), c.ints...)
 	n.defers = append([]*ssa.Defer(nil), c.defers...)
 	n.parent = c
 	n.note = ""
@@ -1001,6 +1008,11 @@ func (e *Engine) stepBlock(c0 *config, sum *summary, isRoot bool) []*config {
 						}
 					}
 				}
+				if bo, ok := instr.(*ssa.BinOp); ok {
+					if tr := e.intTracked(c.fn); tr[bo] {
+						e.stepInt(c, bo)
+					}
+				}
 				forked := false
 				if evs := e.match(instr); len(evs) > 0 {
 					x := &Ctx{E: e, Fn: c.fn, Instr: instr, c: c}
@@ -1127,6 +1139,27 @@ func (e *Engine) enter(n *config, from, to *ssa.BasicBlock) bool {
 		}
 		a := e.eval(n, phi.Edges[pi])
 		ups = append(ups, upd{phi, a})
+	}
+	if tr := e.intTracked(n.fn); len(tr) > 0 && pi >= 0 {
+		type iu struct {
+			v   ssa.Value
+			val int64
+			ok  bool
+		}
+		var ius []iu
+		for _, instr := range to.Instrs {
+			phi, ok := instr.(*ssa.Phi)
+			if !ok {
+				break
+			}
+			if tr[phi] {
+				val, known := e.intOf(n, phi.Edges[pi])
+				ius = append(ius, iu{phi, val, known})
+			}
+		}
+		for _, u := range ius {
+			e.setInt(n, u.v, u.val, u.ok)
+		}
 	}
 	for _, u := range ups {
 		if u.a != Unknown {
@@ -1356,7 +1389,15 @@ func (e *Engine) doCall(c *config, call ssa.CallInstruction) []*config {
 	}
 	if worlds == nil {
 		var targets []*ssa.Function
-		for _, f := range e.callees(call) {
+		viaTable := false
+		cands := e.callees(call)
+		if tab, idx := e.tableCall(call); tab != nil {
+			if i, ok := e.intOf(cur, idx); ok && i >= 0 && int(i) < len(tab) {
+				cands = []*ssa.Function{tab[i]}
+				viaTable = true
+			}
+		}
+		for _, f := range cands {
 			if e.relevant(f) {
 				targets = append(targets, f)
 			}
@@ -1400,9 +1441,13 @@ func (e *Engine) doCall(c *config, call ssa.CallInstruction) []*config {
 				args := call.Common().Args
 				pf := make([]Abs, len(f.Params)+len(f.FreeVars))
 				// closures bound via MakeClosure: params align with args
+				shift := 0
+				if viaTable && f.Signature.Recv() != nil && len(f.Params) == len(args)+1 {
+					shift = 1 // a bound method from a function table: the receiver is not among the call's arguments
+				}
 				for i := range f.Params {
-					if i < len(args) {
-						pf[i] = e.eval(cur, args[i])
+					if i-shift >= 0 && i-shift < len(args) {
+						pf[i] = e.eval(cur, args[i-shift])
 					}
 				}
 				// captured read-only cells carry their facts into the closure
